@@ -77,6 +77,7 @@ def ConstCmp (r : CmpOp × Expr × Expr × Bool) : Bool :=
 
 /-- C11: every angle entry applies `acos` only to a clamped argument. -/
 def C11clamp (e : Entry) : Bool := checkAngle e
+def C11exact (e : Entry) : Bool := checkAngleExact e
 /-- C11: `(e₁, e₂)` with the argument types of `e₂` those of `e₁` reversed: swapping the arguments of
 `e₁` gives `e₂` up to the order of factors of floating-point products. -/
 def C11sym (t : Entry × Entry) : Bool :=
